@@ -142,7 +142,24 @@ var Kinds = []Kind{
 	{"embeds_nil", func() interface{} { return embedsFix{} }},
 	{"stringers", func() interface{} { return []fmt.Stringer{stringerFix{"s0"}} }},
 	{"pstrs", func() interface{} { return &[]string{"p0", "p1"} }},
+	// what pathFor looks for: ToPath / ToParam, Slug / ID fields (also nil, also promoted from a nil pointer)
+	{"pathable", func() interface{} { return pathableFix{"/px/1"} }},
+	{"pathable_nilptr", func() interface{} { return (*pathableFix)(nil) }},
+	{"paramable", func() interface{} { return paramableFix{K: "k 1"} }},
+	{"with_slug_nil", func() interface{} { return withSlug{} }},
+	{"embeds_nil_id", func() interface{} { return embedsIDFix{} }},
 }
+
+type pathableFix struct{ p string }
+
+func (p pathableFix) ToPath() string { return p.p }
+
+type paramableFix struct{ K string }
+
+func (p paramableFix) ToParam() string { return p.K }
+
+// embedsIDFix promotes the ID field of a nil *withID
+type embedsIDFix struct{ *withID }
 
 // vzFix: its pointer method sorts after all its value methods
 type vzFix struct{ N int }
